@@ -134,6 +134,45 @@ CHECKS = {
              "by an event-log monitor on the implementation (partial for that part).",
         design="5/C16", tech="Coq proof (relaxation fixpoint + stable sort) over a hand-written model + exact river-order correspondence + event-log monitor",
         note=NOTE),
+    "C07": dict(
+        text="PARTIAL proof: theorems for every store level and arc state (hence every state reachable by earlier requests): a "
+             "store's pull check X then a pull of y returns min(y, X), its push check X then a push of volume v leaves "
+             "max(v - X, 0); the same through a plain arc with capacity and admitted flow in front of a tank-backed node; a "
+             "river without upstream neighbours (minimum flow subtracted). Other node classes: check -> request probes on every "
+             "arc of random whole models after real request histories. Two genuine defects (stale QueueGroundwater push check, "
+             "Catchment push check echoing the offer) were repaired with fix: commits.",
+        design="5/C07", tech="Coq proof (min/max case analysis over store and arc models) + exact correspondence + check->request probes on whole models (partial)",
+        note=NOTE),
+    "C08": dict(
+        text="Theorems: over the finite handler / emission tables regenerated from the live classes on every run, every tagged "
+             "request a component can emit towards a neighbour type has a set- and a check-handler in every class seen under "
+             "that type name (vm_compute over exactly those tables); pull-only arcs never carry a push and hand it back intact, "
+             "push-only arcs never carry a pull, checks change nothing; a distribution leaves arcs to neighbours of other "
+             "types untouched (frame theorems, any fan-out). Tie: table generator T2, arc and star correspondence (list and "
+             "bare-string filters, substring-related class names); behavioural cross-product monitor (class x arc class x "
+             "request kind, incl. forced pushes over pull-only arcs; every emission towards every target class). Two "
+             "genuine defects were repaired with fix: commits.",
+        design="5/C08", tech="Coq proof over generated finite tables (vm_compute) and over arc/star models + exact correspondence + behavioural cross product",
+        note=NOTE + "A tag or type filter computed at run time would be invisible to T2 (none in the library; the generator reports dynamic ones)."),
+    "C17": dict(
+        text="Theorems about the boundary-function models: rain on an impervious surface is depth x area, its evaporation is "
+             "within potential evaporation x coefficient x area and within rain + stored water and the store changes by rain - "
+             "evaporation; deposition is load x area with no water; household demand is population x per-capita use with "
+             "population x load; catchment inflow is the data row with mass = concentration x flow. Tie: exact correspondence "
+             "of these functions and of the catchment routing / abstraction model. Whole models (incl. pervious surfaces, which "
+             "are not modelled in Coq): monitor with an independent evaluation of the configuration data (partial for those).",
+        design="5/C17", tech="Coq proof over hand-written boundary-function models + exact correspondence + independent-oracle whole-model monitor",
+        note=NOTE),
+    "C19": dict(
+        text="Theorems about the River / RiverReservoir models for all geometries (riverrc arbitrary), minimum flows, states and "
+             "neighbours meeting the reply contract: an abstraction in ANY state takes at most the water above mrf/riverrc, at "
+             "most what was asked, nothing at or below the allowance (so any number of abstractions in any order); with the "
+             "water in the river's own store the allowance is kept and the check is honest; the release step takes "
+             "min(outstanding, contents), never more than outstanding, and counts exactly what went downstream. Tie: exact "
+             "correspondence of the real classes as hubs of typed stars; monitor with tank-backed upstream neighbours. One "
+             "genuine defect (unpushed release counted as satisfied) was repaired with a fix: commit.",
+        design="5/C19", tech="Coq proof (contract-parametric, over Tank + Distrib models) + exact correspondence + implementation monitor",
+        note=NOTE + "riverrc is evaluated with a rational surrogate of exp on both sides of the correspondence; the theorems do not depend on its value."),
 }
 
 ALL = [f"C{n:02d}" for n in range(1, 21)]
